@@ -12,12 +12,12 @@ import (
 	"testing"
 	"time"
 
-	abci "github.com/cometbft/cometbft/abci/types"
 	dbm "github.com/cometbft/cometbft-db"
+	abci "github.com/cometbft/cometbft/abci/types"
 	sdk "github.com/cosmos/cosmos-sdk/types"
 	"github.com/medibloc/panacea-core/v2/types/compkey"
-	didcrypto "github.com/medibloc/panacea-core/v2/x/did/client/crypto"
 	aoltypes "github.com/medibloc/panacea-core/v2/x/aol/types"
+	didcrypto "github.com/medibloc/panacea-core/v2/x/did/client/crypto"
 	didtypes "github.com/medibloc/panacea-core/v2/x/did/types"
 	"pgregory.net/rapid"
 
@@ -214,7 +214,6 @@ func TestC20Snapshot(t *testing.T) {
 		st.label("c20 queries overlapping block execution", int(overlap.Load()))
 	})
 }
-
 
 // ---- (b) shared validation / signing code ---------------------------------------------------------
 
